@@ -20,12 +20,20 @@ REQUIRED = ["DaeVerif.C03.Props." + n for n in (
     "unparsed_frames_not_routed", "ipv4_noninitial_fragment_passes", "idle_timeouts",
     "conn_state_layout", "handoff_layout", "lookup_key_layout", "retrieve_reads_the_stored_bytes",
     "dae_recognition", "group_health_bit",
+    # audit follow-up
+    "reverse_syn_restarts_tracking_as_wan_originated", "lan_routing_error_fails_closed",
+    "wan_tcp_routing_error_fails_closed", "wan_udp_routing_error_fails_closed",
+    "lan_new_tcp_becomes_tracked", "lan_new_udp_becomes_tracked", "wan_new_tcp_becomes_tracked",
+    "wan_new_udp_becomes_tracked", "dns_tuples_never_hold_a_decision", "handover_without_redirect_room_drops",
+    "handoff_full_behaviour", "janitor_respects_idle_timeouts", "aggressive_janitor_halves_timeouts",
+    "sticky_decision_janitor",
     # composition with C02 (route() over the installed bytes) and C01 (first matching rule): Compose.lean
     "lan_new_tcp_connection_follows_userspace", "lan_new_tcp_connection_follows_first_match",
     "lan_new_udp_flow_follows_first_match",
     "wan_new_tcp_connection_follows_userspace", "wan_new_tcp_connection_follows_first_match",
     "wan_new_udp_flow_follows_first_match",
-    "sticky_decision_installed_programs", "first_match_decision_is_sticky",
+    "sticky_decision_installed_programs", "first_match_decision_is_sticky", "first_match_decision_is_sticky_lan_udp",
+    "first_match_decision_is_sticky_wan_tcp", "first_match_decision_is_sticky_wan_udp",
 )]
 
 GO_ANSWERED = ("connkey", "hoexp")
@@ -74,6 +82,16 @@ def strip_diagnostics(line):
 
 def diag_only(line):
     return " ".join(DIAG.findall(line))
+
+
+def jan_field(line, name):
+    m = re.search(r"(?:^| )%s=\[([^\]]*)\]" % name, line)
+    return [k for k in m.group(1).split(";") if k] if m else []
+
+
+def jan_canon(line, unc):
+    return "del=[%s] hdel=[%s]" % (";".join(k for k in jan_field(line, "del") if k not in unc),
+                                   ";".join(k for k in jan_field(line, "hdel") if k not in unc))
 
 
 def scenario_replay(ops, lineno, limit=400):
@@ -169,7 +187,7 @@ def run(ctx):
         ctx.say("HARNESS-FAILED (retrieve pass)", out[-3000:])
         return 2
 
-    n_frames = n_parse = n_retr = n_retr_skipped = n_const = n_twin_frames = n_diag_diffs = 0
+    n_frames = n_parse = n_retr = n_retr_skipped = n_const = n_twin_frames = n_diag_diffs = n_jan = n_jan_deleted = 0
     distinct = set()
     verdicts = collections.Counter()
     branch = collections.Counter()
@@ -197,6 +215,18 @@ def run(ctx):
             elif kind == "const":
                 merged.append(f"{go[i]}|{cl[i]}")
                 skip.add(i)
+            elif kind == "jan":
+                # keys the real janitors deleted vs the model's; keys whose age is within the host's scheduling noise
+                # of a timeout (`unc`) are left out on both sides
+                if not rt[i].startswith("del="):
+                    merged.append(rt[i])
+                    skip.add(i)
+                else:
+                    unc = set(jan_field(rt[i], "unc"))
+                    merged.append(jan_canon(rt[i], unc))
+                    model[i] = jan_canon(model[i], unc)
+                    n_jan += 1
+                    n_jan_deleted += len(jan_field(rt[i], "del")) + len(jan_field(rt[i], "hdel"))
             elif kind == "retr":
                 merged.append(rt[i])
                 if rt[i] == "rr=skip-boundary":
@@ -226,6 +256,7 @@ def run(ctx):
                     "retr": "RetrieveRoutingResult (real Go code on the bytes the kernel program wrote) differs from the model's retrieve",
                     "dump": "map contents differ from the model",
                     "connkey": "outboundConnectivityMapKey differs from the slot wan_outbound_is_alive reads in the model",
+                    "jan": "the userspace janitors (real cleanupConnStateMapBeforeLocked / cleanupRoutingHandoffMapBeforeLocked on the stored bytes) delete other entries than the model's janitor",
                     "hoexp": "routingHandoffExpired differs from the model"}.get(kind, "implementation differs from the proved model")
             queue(2, f"{what} at {n}:{ln}: impl `{im[:300]}` model `{mo[:300]}`",
                        {"stream": n, "line": ln, "op": op[:6000], "impl": im[:6000], "model": mo[:6000],
@@ -287,7 +318,7 @@ def run(ctx):
                 _, _, sid, tag = op.split(" ")[:4]
                 cur = (sid, tag)
                 blocks[cur] = []
-            elif cur is not None and op.split(" ", 1)[0] in ("frame", "retr", "dump"):
+            elif cur is not None and op.split(" ", 1)[0] in ("frame", "retr", "dump", "jan"):
                 blocks[cur].append(i)
         for (sid, tag), idxs in blocks.items():
             if tag != "A" or (sid, "B") not in blocks:
@@ -371,6 +402,7 @@ def run(ctx):
     ctx.cov["const_lines_three_way"] = n_const
     ctx.cov["retr_skipped_boundary"] = n_retr_skipped
     ctx.cov["diagnostic_only_differences"] = n_diag_diffs
+    ctx.cov["janitor_rounds"] = {"rounds": n_jan, "entries_deleted": n_jan_deleted}
     ctx.assumptions = [
         "frames, rule programs, connectivity states, clocks and interleavings are generated (seeded): what was not generated was not compared",
         "the parse-path choice (linear length, bpf_skb_pull_data result), socket cookie and socket-lookup result are inputs of a frame (oracles)",
